@@ -172,6 +172,25 @@ int main(int argc, char **argv) {
             exhaustive++;
         }
     }
+    /* directed port texts: values around every width at which an implementation might narrow or wrap (2^16, 2^31, 2^32, k*2^32 + p,
+     * 2^63, 2^64), with and without leading zeros, in a plain and a bracketed authority */
+    if (shard == 0) {
+        static const char *bases[] = { "65535", "65536", "2147483647", "2147483648", "4294967295", "4294967296", "9223372036854775807", "9223372036854775808",
+                                       "18446744073709551615", "18446744073709551616" };
+        char t[128];
+        for (size_t bi = 0; bi < sizeof bases / sizeof bases[0]; bi++) {
+            int n1 = snprintf(t, sizeof t, "http://h:%s/", bases[bi]); check_one((const unsigned char *) t, (size_t) n1, 1);
+            n1 = snprintf(t, sizeof t, "http://[::1]:000%s?q", bases[bi]); check_one((const unsigned char *) t, (size_t) n1, 1);
+        }
+        for (uint64_t k = 1; k <= 5; k++) for (uint64_t pp = 0; pp < 8; pp++) {
+            static const uint64_t ps[] = { 0, 1, 80, 443, 8080, 65535, 65536, 70000 };
+            uint64_t v = (k == 5 ? 1000ull : k) * 4294967296ull + ps[pp];
+            int n1 = snprintf(t, sizeof t, "http://h:%llu/x", (unsigned long long) v); check_one((const unsigned char *) t, (size_t) n1, 1);
+            n1 = snprintf(t, sizeof t, "a://u@h:%llu", (unsigned long long) v); check_one((const unsigned char *) t, (size_t) n1, 1);
+            v = (k == 5 ? 1000ull : k) * 65536ull + ps[pp];
+            n1 = snprintf(t, sizeof t, "http://h:%llu/x", (unsigned long long) v); check_one((const unsigned char *) t, (size_t) n1, 1);
+        }
+    }
     uint64_t s = seed * 0x9e3779b97f4a7c15ULL + shard;
     static const char *frag[] = { "http://", "a://", "//", "@", ":", "[", "]", "?", "#", "/", "[::1]", ":80", ":0", ":65535", ":65536", " ", "%41", "\t", "h", "u:p@" };
     for (uint64_t i = 0; i < nrandom; i++) {
